@@ -162,7 +162,7 @@ def run(ctx):
     ctx.minimums.clear()
     ctx.minimums.update(mins)
     for o in new:
-        if o['rule'] == 'C10-saturate':
+        if o['rule'] in ('C10-saturate', 'C10-bounds'):       # (the guards compare with bounds that must be the images of the range ends)
             o['rule'] = 'C02-clamp'
             ctx.obligations.append(o)
     ctx.minimum('C02-clamp', 7)
@@ -171,6 +171,13 @@ def run(ctx):
 def _show(lin):
     from ..symval import lin_str
     return lin_str(lin) if isinstance(lin, dict) else str(lin)
+
+
+def _record_fields(u, name):
+    for x in (y for r in u.roots for y in walk(r)):
+        if x.get('kind') == 'CXXRecordDecl' and x.get('name') == name and x.get('completeDefinition'):
+            return [y.get('name') for y in kids(x) if y.get('kind') == 'FieldDecl']
+    return None
 
 
 def _fields(ctx, u, f):
@@ -221,6 +228,18 @@ def _fields(ctx, u, f):
                 while peel(rhs).get('kind') == 'CXXOperatorCallExpr' and callee(peel(rhs)) and callee(peel(rhs))[1].get('name') == 'operator=':
                     rhs = call_args(peel(rhs))[1]
                 record(args[0], rhs, n)
+    # aggregate initialisation: civil_lookup{kind, pre, trans, post} in declaration order
+    for n in g.rpo():
+        if n.ast is None:
+            continue
+        for x in _post(n.ast):
+            if x.get('kind') == 'InitListExpr' and re.search(r'civil_lookup$', (dtype(x) or qtype(x) or '').replace('const ', '').strip()):
+                order = _record_fields(u, 'civil_lookup')
+                vals = kids(x)
+                if order and len(vals) == len(order):
+                    for name, v in zip(order, vals):
+                        if name in ('kind', 'pre', 'trans', 'post') and v.get('kind') != 'ImplicitValueInitExpr':
+                            record_value(name, v, n)
     if not out:
         # the fields may be filled in by a file-local builder the function hands its values to
         from ..callgraph import fkey as _fkey
